@@ -27,7 +27,7 @@ theorem tables_as_modelled :
     implicitVariants = ["ThreadIndexInSimdgroup", "ThreadsPerSimdgroup", "MeshOutput", "PayloadOutput",
       "MeshGridProperties", "Global"] ∧
     implicitDerivesOrd = true ∧ requiredGlobalsSorted = true ∧ pushesNonConstantGlobals = true ∧
-    intrinsicFunctionsSkipped = true ∧ callSitesAppendCalleeList = true ∧ trampolineAppendsOwnList = true ∧
+    intrinsicFunctionsSkipped = true ∧ argumentsAppendedInListOrder = true ∧ callSitesAppendCalleeList = true ∧ trampolineAppendsOwnList = true ∧
     implicitParamsFollowUserParams = true ∧ trampolineIffOutAndCalled = true := by decide
 
 /-- every syntactic position a mention or call can sit at inside a function body is visited by
